@@ -153,6 +153,31 @@ pub fn install_hooks() {
     blake3::verif_hooks::set_detect_hook(Some(detect_hook));
     blake3::verif_hooks::set_kernel_hook(Some(kernel_hook));
     blake3::verif_hooks::set_join_hook(Some(join_hook));
+    // every atomic / lock / once-cell operation in the crate's own source (instrumented copy)
+    vshim::set_hooks(crate::yield_point, blocked_point);
+    vshim::set_vthread_hook(virtual_thread_id);
+}
+
+/// The identity `thread_local!`s of the instrumented crate are keyed by: the loom thread inside a
+/// model (loom's threads are coroutines of one OS thread), the OS thread outside.
+fn virtual_thread_id() -> u64 {
+    use std::hash::{Hash, Hasher};
+    let mut h = std::collections::hash_map::DefaultHasher::new();
+    if crate::POINT.load(Ordering::SeqCst).is_null() {
+        std::thread::current().id().hash(&mut h);
+        h.finish() | (1 << 63)
+    } else {
+        loom::thread::current().id().hash(&mut h);
+        h.finish() & !(1 << 63)
+    }
+}
+
+fn blocked_point() {
+    if crate::POINT.load(Ordering::SeqCst).is_null() {
+        std::thread::yield_now();
+    } else {
+        loom::thread::yield_now();
+    }
 }
 
 pub fn hasher_bytes(h: &blake3::Hasher) -> Vec<u8> {
@@ -412,10 +437,26 @@ fn rayon_sampling(args: &Args, rep: &mut Report) {
 // ------------------------------------------------------------------------------------------------
 // C18
 
+pub const NSEQ: usize = 8;
+
 /// A complete operation sequence on instances private to the caller; returns everything observable.
 pub fn op_sequence(which: usize, data: &[u8]) -> Vec<u8> {
     let mut out = vec![];
-    match which % 6 {
+    match which % NSEQ {
+        6 | 7 => {
+            // key derivation twice with this thread's own context string (anything the crate remembers
+            // about "the last context" or "the last key" must not leak between threads), then keyed
+            let ctx = if which % NSEQ == 6 { "vsched context six" } else { "vsched context seven, a little longer" };
+            out.extend_from_slice(&blake3::derive_key(ctx, &data[..70]));
+            let mut h = blake3::Hasher::new_derive_key(ctx);
+            h.update(&data[70..200]);
+            out.extend_from_slice(h.finalize().as_bytes());
+            out.extend_from_slice(&blake3::derive_key(ctx, &data[3..9]));
+            let mut k = key();
+            k[0] ^= (which % NSEQ) as u8;
+            out.extend_from_slice(blake3::keyed_hash(&k, &data[..65]).as_bytes());
+            out.extend_from_slice(blake3::keyed_hash(&k, &data[1..3]).as_bytes());
+        }
         4 => {
             out.extend_from_slice(blake3::hash(&data[..1025]).as_bytes());
         }
@@ -464,7 +505,19 @@ pub fn spec_sequence(which: usize, data: &[u8]) -> Vec<u8> {
     let mut out = vec![];
     let hm = b3spec::Mode::hash();
     let km = b3spec::Mode::keyed(&key());
-    match which % 6 {
+    match which % NSEQ {
+        6 | 7 => {
+            let ctx: &[u8] = if which % NSEQ == 6 { b"vsched context six" } else { b"vsched context seven, a little longer" };
+            let dm = b3spec::Mode::derive(ctx);
+            out.extend_from_slice(&b3spec::hash32(&dm, &data[..70]));
+            out.extend_from_slice(&b3spec::hash32(&dm, &data[70..200]));
+            out.extend_from_slice(&b3spec::hash32(&dm, &data[3..9]));
+            let mut k = key();
+            k[0] ^= (which % NSEQ) as u8;
+            let km2 = b3spec::Mode::keyed(&k);
+            out.extend_from_slice(&b3spec::hash32(&km2, &data[..65]));
+            out.extend_from_slice(&b3spec::hash32(&km2, &data[1..3]));
+        }
         4 => out.extend_from_slice(&b3spec::hash32(&hm, &data[..1025])),
         5 => out.extend_from_slice(&b3spec::xof(&km, &data[..100], 0, 100)),
         0 => {
@@ -494,17 +547,17 @@ pub fn spec_sequence(which: usize, data: &[u8]) -> Vec<u8> {
 pub fn c18(args: &Args, rep: &mut Report) {
     let t = args.thorough();
     let data = std::sync::Arc::new(vcommon::stream_b(args.seed ^ 0x18, 80 * 1024));
-    let solo: Vec<Vec<u8>> = (0..6).map(|w| spec_sequence(w, &data)).collect();
+    let solo: Vec<Vec<u8>> = (0..NSEQ).map(|w| spec_sequence(w, &data)).collect();
     let lv = levels();
     // (a) interleavings of complete operation sequences on disjoint instances
-    let combos: Vec<Vec<usize>> = if t { vec![vec![0, 1], vec![1, 2], vec![2, 3], vec![0, 3], vec![1, 1], vec![4, 5, 3], vec![0, 1, 2], vec![1, 2, 3], vec![3, 3, 0]] } else { vec![vec![0, 1], vec![1, 2], vec![2, 3], vec![1, 1], vec![4, 5, 3], vec![5, 5, 4]] };
+    let combos: Vec<Vec<usize>> = if t { vec![vec![0, 1], vec![1, 2], vec![2, 3], vec![0, 3], vec![1, 1], vec![4, 5, 3], vec![0, 1, 2], vec![1, 2, 3], vec![3, 3, 0], vec![6, 7], vec![6, 6], vec![6, 2], vec![6, 7, 2]] } else { vec![vec![0, 1], vec![1, 2], vec![2, 3], vec![1, 1], vec![6, 7], vec![6, 6], vec![4, 5, 3], vec![5, 5, 4]] };
     for (li, (lname, _)) in lv.iter().enumerate() {
         if !t && !(li == 0 || li == lv.len() - 1) {
             continue;
         }
         LEVEL.store(li, Ordering::SeqCst);
         // the solo results at this level equal the spec
-        for w in 0..6 {
+        for w in 0..NSEQ {
             rep.inc("evaluations");
             rep.inc("spec_comparisons");
             if op_sequence(w, &data) != solo[w] {
@@ -548,7 +601,7 @@ pub fn c18(args: &Args, rep: &mut Report) {
     let run_scripted = |script: &[usize]| -> (usize, bool) {
         *DETECT_SCRIPT.lock().unwrap() = Some((script.to_vec(), 0));
         let mut ok = true;
-        for w in 0..6 {
+        for w in 0..NSEQ {
             if op_sequence(w, &data) != solo[w] {
                 ok = false;
             }
